@@ -30,7 +30,7 @@
     differential history runs against the map oracle (vlib/c11.py). *)
 From Coq Require Import List NArith ZArith String Bool Lia.
 From Kismet Require Import Pure.Hash FS.Fs FS.Prog Spec.Wp Ops.Ops Conc.Effect Proofs.HashProofs Proofs.NeverMasked
-  Proofs.KvFacts Seq.Plain Seq.Steps Seq.Bind Seq.Sane Proofs.KvSeq.
+  Proofs.KvFacts Seq.Plain Seq.Steps Seq.Bind Seq.Sane Proofs.KvSeq Proofs.KvShard.
 Import ListNotations.
 
 Theorem C11_sorted_pair : forall hash sec n, let '(a, b) := shard_ids hash sec n in a <> b.
@@ -83,6 +83,33 @@ Theorem C11_set_then_get : forall d name v i0 w o o2,
    inode_of (w_fs w1) i0 <> None -> r2 <> Ok None).
 Proof. exact set_then_get. Qed.
 
+(** The same through the public stack API ([Cache::set] then [Cache::get]) for a
+    plain write cache without read-only caches or checker. *)
+Theorem C11_cache_set_then_get : forall cfg dir cap k v i0 w o o2,
+  s_writer cfg = Some (FPlain dir cap) -> s_readers cfg = [] -> s_checker cfg = None ->
+  plainp dir = true -> valid_name (k_name k) = true -> plainp v = true ->
+  (forall q, v <> dir ++ q) -> (forall q, dir <> v ++ q) ->
+  names_plain (w_fs w) -> name_of (w_fs w) v = Some i0 ->
+  let '(r, w1, _, _) := run (cache_set cfg k v) w o in
+  is_ok r = true ->
+  let '(r2, w2, _, _) := run (cache_get cfg k) w1 o2 in
+  forall fd, r2 = Ok (Some fd) -> fdino (w_fs w2) fd = Some i0.
+Proof. intros cfg dir cap k v i0 w o o2 Hw Hr Hc Hb Hn Hv Ho Ha. exact (cache_set_then_get cfg dir cap Hw Hr Hc k Hb Hn v i0 w o o2 Hv Ho Ha). Qed.
+
+(** ... down to the bytes: the hit's file holds exactly what the source file held
+    when [set] was called (the write and lookup paths write no file contents). *)
+Theorem C11_cache_set_then_get_bytes : forall cfg dir cap k v i0 D w o o2,
+  s_writer cfg = Some (FPlain dir cap) -> s_readers cfg = [] -> s_checker cfg = None ->
+  plainp dir = true -> valid_name (k_name k) = true -> plainp v = true ->
+  (forall q, v <> dir ++ q) -> (forall q, dir <> v ++ q) ->
+  names_plain (w_fs w) -> name_of (w_fs w) v = Some i0 ->
+  data (w_fs w) i0 = Some D -> i0 < next_ino (w_fs w) ->
+  let '(r, w1, _, _) := run (cache_set cfg k v) w o in
+  is_ok r = true ->
+  let '(r2, w2, _, _) := run (cache_get cfg k) w1 o2 in
+  forall fd, r2 = Ok (Some fd) -> fdino (w_fs w2) fd = Some i0 /\ data (w_fs w2) i0 = Some D.
+Proof. exact cache_set_then_get_bytes. Qed.
+
 Theorem C11_others_keep_or_vanish : forall d name v (which : bool) f0 w o,
   plainp (cd_base d) = true -> valid_name name = true -> plainp v = true -> w_fs w = f0 -> names_plain f0 ->
   let '(_, w', _, _) := run (cd_publish (if which then insert_or_update else insert_or_touch) d name v) w o in
@@ -107,6 +134,73 @@ Proof.
   destruct (shard_ids (k_hash k) (k_sec k) nsh) as [a b] eqn:Hids. destruct Hs as (Hla & Hlb & Hne & _).
   assert (Hab : format_id a <> format_id b) by (intros He; apply Hne; apply format_id_injective; [lia|lia|exact He]).
   exact (sharded_set_binds dir nsh total k v Hd Hn Hv Ho Ha a b Hab Hids i0 h w o Hpl Hv0).
+Qed.
+
+(** Sharded lookups and "no stale read from the alternate shard": given at most
+    one copy of the key before (and bound entries reachable), a successful sharded
+    set leaves each of the two shard paths bound to the source's inode or unbound,
+    at most one of them bound; a sharded lookup's hit is a descriptor on what one
+    of the two paths was bound to; so a lookup after the set never returns an
+    older value. *)
+Theorem C11_sharded_get_reads : forall dir nsh total k f0 w o,
+  plainp dir = true -> valid_name (k_name k) = true -> w_fs w = f0 -> names_plain f0 ->
+  let '(a, b) := shard_ids (k_hash k) (k_sec k) nsh in
+  let dstp sid := cd_base (shard_cdir dir nsh total sid) ++ [k_name k] in
+  let '(r, w', _, _) := run (sh_get dir nsh total k) w o in
+  (forall x, name_of (w_fs w') x = name_of f0 x) /\
+  (forall fd, r = Ok (Some fd) ->
+     (fdino (w_fs w') fd = name_of f0 (dstp a) \/ fdino (w_fs w') fd = name_of f0 (dstp b)) /\ fdino (w_fs w') fd <> None).
+Proof.
+  intros dir nsh total k f0 w o Hd Hn Hw Hpl. destruct (shard_ids (k_hash k) (k_sec k) nsh) as [a b] eqn:Hids.
+  exact (sharded_get_reads dir nsh total k Hd Hn a b Hids f0 w o Hw Hpl).
+Qed.
+
+Theorem C11_sharded_set_then_get : forall dir nsh total k v h i0 w o o2,
+  plainp dir = true -> valid_name (k_name k) = true -> plainp v = true ->
+  (forall q, v <> dir ++ q) -> (forall q, dir <> v ++ q) -> (eff_shards nsh <= TWO64)%N ->
+  let '(a, b) := shard_ids (k_hash k) (k_sec k) nsh in
+  let dstp sid := cd_base (shard_cdir dir nsh total sid) ++ [k_name k] in
+  o_fault o = None -> names_plain (w_fs w) -> name_of (w_fs w) v = Some i0 ->
+  (name_of (w_fs w) (dstp a) = None \/ name_of (w_fs w) (dstp b) = None) ->
+  (forall sid i, sid = a \/ sid = b -> name_of (w_fs w) (dstp sid) = Some i ->
+     resolve (w_fs w) (dstp sid) = inl (dstp sid) /\ inode_of (w_fs w) i <> None) ->
+  let '(r, w1, _, _) := run (sh_publish cd_set h dir nsh total k v) w o in
+  is_ok r = true ->
+  ((forall sid, sid = a \/ sid = b -> name_of (w_fs w1) (dstp sid) = Some i0 \/ name_of (w_fs w1) (dstp sid) = None) /\
+   (name_of (w_fs w1) (dstp a) = None \/ name_of (w_fs w1) (dstp b) = None)) /\
+  let '(r2, w2, _, _) := run (sh_get dir nsh total k) w1 o2 in
+  forall fd, r2 = Ok (Some fd) -> fdino (w_fs w2) fd = Some i0.
+Proof.
+  intros dir nsh total k v h i0 w o o2 Hd Hn Hv Ho Ha Hsz.
+  pose proof (shard_ids_spec (k_hash k) (k_sec k) nsh) as Hs. cbv zeta in Hs.
+  destruct (shard_ids (k_hash k) (k_sec k) nsh) as [a b] eqn:Hids. destruct Hs as (Hla & Hlb & Hne & _).
+  assert (Hab : format_id a <> format_id b) by (intros He; apply Hne; apply format_id_injective; [lia|lia|exact He]).
+  intros dstp Hnf Hpl Hv0 Hone Hreach.
+  pose proof (sharded_set_no_stale dir nsh total k Hd Hn a b Hab Hids (w_fs w) v Hv Ho Ha Hone Hreach h i0 w o eq_refl Hnf Hpl Hv0) as H1.
+  pose proof (sharded_set_then_get dir nsh total k v a b h i0 w o o2 Hd Hn Hv Ho Ha Hab Hids Hnf Hpl Hv0 Hone Hreach) as H2.
+  destruct (run (sh_publish cd_set h dir nsh total k v) w o) as [[[r w1] o1] tr1]. intros Hok. split; [exact (H1 Hok)|exact (H2 Hok)].
+Qed.
+
+Theorem C11_sharded_put_keeps : forall dir nsh total k v h i0 f0 w o,
+  plainp dir = true -> valid_name (k_name k) = true -> plainp v = true ->
+  (forall q, v <> dir ++ q) -> (forall q, dir <> v ++ q) -> (eff_shards nsh <= TWO64)%N ->
+  let '(a, b) := shard_ids (k_hash k) (k_sec k) nsh in
+  let dstp sid := cd_base (shard_cdir dir nsh total sid) ++ [k_name k] in
+  w_fs w = f0 -> o_fault o = None -> names_plain f0 -> name_of f0 v = Some i0 ->
+  (name_of f0 (dstp a) = None \/ name_of f0 (dstp b) = None) ->
+  (forall sid i, sid = a \/ sid = b -> name_of f0 (dstp sid) = Some i -> resolve f0 (dstp sid) = inl (dstp sid) /\ inode_of f0 i <> None) ->
+  let '(r, w', _, _) := run (sh_publish cd_put h dir nsh total k v) w o in
+  is_ok r = true ->
+  (forall sid, sid = a \/ sid = b ->
+     name_of (w_fs w') (dstp sid) = Some i0 \/ name_of (w_fs w') (dstp sid) = name_of f0 (dstp sid) \/ name_of (w_fs w') (dstp sid) = None) /\
+  (name_of (w_fs w') (dstp a) = None \/ name_of (w_fs w') (dstp b) = None).
+Proof.
+  intros dir nsh total k v h i0 f0 w o Hd Hn Hv Ho Ha Hsz.
+  pose proof (shard_ids_spec (k_hash k) (k_sec k) nsh) as Hs. cbv zeta in Hs.
+  destruct (shard_ids (k_hash k) (k_sec k) nsh) as [a b] eqn:Hids. destruct Hs as (Hla & Hlb & Hne & _).
+  assert (Hab : format_id a <> format_id b) by (intros He; apply Hne; apply format_id_injective; [lia|lia|exact He]).
+  intros dstp Hw Hnf Hpl Hv0 Hone Hreach.
+  exact (sharded_put_keeps dir nsh total k Hd Hn a b Hab Hids f0 v Hv Ho Ha Hone Hreach i0 Hv0 h w o Hw Hnf Hpl).
 Qed.
 
 Theorem C11_one_copy : forall (which : bool) dir h n t k v,
@@ -152,3 +246,26 @@ Example C11_example :
   go true = (Ok tt, Some 4%nat, Some 3%nat, None, Some 4%nat) /\
   go false = (Ok tt, Some 2%nat, Some 3%nat, None, Some 2%nat).
 Proof. vm_compute. repeat split; reflexivity. Qed.
+
+(** Non-vacuity, sharded: two shards; the key's copy (inode 4, old value) lives in
+    its SECONDARY shard, the primary shard is the less loaded one.  The set
+    replaces the copy where it is (no second copy), and the lookup returns the
+    new inode 5. *)
+Example C11_sharded_example :
+  let mk (f : fs) (p : path) (c : N) :=
+    let '(f1, i) := alloc_inode f (mkInode false [c] 292 100%Z 50%Z 1 true) in
+    set_names f1 ((p, i) :: names f1) in
+  let mkd (f : fs) (p : path) :=
+    let '(f1, i) := alloc_inode f (mkInode true [] 493 0%Z 0%Z 2 true) in
+    set_names f1 ((p, i) :: names f1) in
+  let k := mkKey "a"%string 1 2 in
+  let '(a, b) := shard_ids (k_hash k) (k_sec k) 2 in
+  let da := ["w"%string; format_id a] in let db := ["w"%string; format_id b] in
+  let f := mk (mk (mkd (mkd (mkd empty_fs ["w"%string]) da) db) (db ++ ["a"%string]) 65%N) ["v"%string] 66%N in
+  let o := mkOracle [1000; 1001; 1002]%Z [18446744073709551615%N] [0%N] [] [] None 0 1%Z Relatime in
+  let '(r, w1, _, _) := run (sh_publish cd_set 0 ["w"%string] 2 100 k ["v"%string]) (mkWorld f 0 []) o in
+  let '(r2, w2, _, _) := run (sh_get ["w"%string] 2 100 k) w1 o in
+  (a <> b /\ name_of f (db ++ ["a"%string]) = Some 4%nat /\ name_of f (da ++ ["a"%string]) = None /\ name_of f ["v"%string] = Some 5%nat) /\
+  r = Ok tt /\ name_of (w_fs w1) (da ++ ["a"%string]) = None /\ name_of (w_fs w1) (db ++ ["a"%string]) = Some 5%nat /\
+  match r2 with Ok (Some fd) => fdino (w_fs w2) fd = Some 5%nat | _ => False end.
+Proof. vm_compute. repeat split; try reflexivity. discriminate. Qed.
